@@ -2101,3 +2101,114 @@ func candidatesChosenByIdentityOnly(c *Ctx, r *Report, rule string) {
 	})
 	r.Floor(rule, "collecting steps of the candidate walk", n, 2)
 }
+
+// fetchOptionsFromFetchOptions: what a constructor tells its loader about the walk (how many entries, in which
+// order the surplus is cut, what to leave out) comes from the caller's fetch options. A log option that leaks
+// into the fetch options — the log's own sort function as the order in which a limited load is cut — makes the
+// load keep other entries than the most recent ones for every log whose order is not the clock order.
+func fetchOptionsFromFetchOptions(c *Ctx, r *Report, rule string) {
+	p := c.P
+	isNamedStruct := func(t types.Type, name string) bool {
+		if pt, ok := t.Underlying().(*types.Pointer); ok {
+			t = pt.Elem()
+		}
+		nt := namedOf(t)
+		return nt != nil && nt.Obj().Name() == name && p.firstParty(nt.Obj().Pkg())
+	}
+	n := 0
+	for _, fn := range p.Fns {
+		if fn.Body == nil || fn.Pkg.PkgPath != p.pkgPath("") {
+			continue
+		}
+		sf := p.SSAFunc(fn)
+		if sf == nil {
+			continue
+		}
+		allInstrs(sf, false, func(ins ssa.Instruction) {
+			st, ok := ins.(*ssa.Store)
+			if !ok {
+				return
+			}
+			f, fa := fieldOf(st.Addr)
+			if f == nil || fa == nil || !isNamedStruct(fa.X.Type(), "FetchOptions") {
+				return
+			}
+			if f.Name() == "IO" {
+				return // the codec is one setting shared by a log and its loader (R-C18.15 demands that they agree)
+			}
+			n++
+			bad := ""
+			for x := range backSlice(st.Val, nil) {
+				if g, ga := fieldOf(x); g != nil && ga != nil && isNamedStruct(ga.X.Type(), "LogOptions") {
+					bad = g.Name()
+				}
+			}
+			r.Check(bad == "", rule, r.Key(rule, fn, "fetch-option", f.Name()), st.Pos(),
+				"the fetch option "+f.Name()+" handed to the loader is not computed from the log's options",
+				fmt.Sprintf("%s fills the fetch option %s from the log option %s: the walk and the cut of a limited load follow a setting meant for the log that is being built — with a sort function that is not the clock order the load keeps other entries than the most recent ones, and which ones depends on the arrival order of the blocks", fn.Name, f.Name(), bad))
+		})
+	}
+	r.Floor(rule, "fetch option fields filled by the constructors and loaders", n, 10)
+}
+
+// writtenInTheCurrentFormat: the entry constructor stamps the format version itself, with a constant, on every
+// path to the pre-sign step: only the current format's writer seals the links, so a version taken from the
+// caller's entry writes the links of an entry made under a link key in clear.
+func writtenInTheCurrentFormat(c *Ctx, r *Report, rule string) {
+	p := c.P
+	ce := p.Func("entry", "", "CreateEntryWithIO")
+	fl := &Flow{P: p, Fn: ce, Entry: Facts{}}
+	fl.Node = func(n ast.Node, f Facts) {
+		walkNoLit(n, func(nd ast.Node) bool {
+			call, ok := nd.(*ast.CallExpr)
+			if !ok {
+				return true
+			}
+			se, ok := ast.Unparen(call.Fun).(*ast.SelectorExpr)
+			if !ok {
+				return true
+			}
+			switch se.Sel.Name {
+			case "SetV":
+				if len(call.Args) == 1 {
+					if tv, ok := ce.Pkg.TypesInfo.Types[call.Args[0]]; ok && tv.Value != nil {
+						f["v|"+tv.Value.ExactString()] = true
+					} else {
+						for k := range f {
+							if strings.HasPrefix(k, "v|") {
+								delete(f, k)
+							}
+						}
+					}
+				}
+			}
+			return true
+		})
+	}
+	fl.Run()
+	n := 0
+	fl.Visit(func(_ *cfgBlk, nd ast.Node, before Facts) {
+		walkNoLit(nd, func(m ast.Node) bool {
+			call, ok := m.(*ast.CallExpr)
+			if !ok {
+				return true
+			}
+			se, ok := ast.Unparen(call.Fun).(*ast.SelectorExpr)
+			if !ok || (se.Sel.Name != "PreSign" && se.Sel.Name != "Sign") {
+				return true
+			}
+			n++
+			stamped := false
+			for k := range before {
+				if strings.HasPrefix(k, "v|") {
+					stamped = true
+				}
+			}
+			r.Check(stamped, rule, r.Key(rule, ce, "version-stamped", se.Sel.Name), call.Pos(),
+				"on every path to "+se.Sel.Name+" the constructor has stamped the entry with a constant format version",
+				"on some path to "+se.Sel.Name+" CreateEntryWithIO has not stamped the entry with a constant format version: the version the caller's entry carries decides the block format, and only the current format's writer seals the links — an entry made under a link key with an older version has its predecessors in clear, readable without the key")
+			return true
+		})
+	})
+	r.Floor(rule, "pre-sign and sign steps of the entry constructor", n, 2)
+}
